@@ -49,11 +49,55 @@ def r1_sole_writer(c, facts):
         c.ok(R, {'write_file call sites': sites})
     else:
         c.bad(R, 'write_file-sites:%s' % ','.join(sorted(q for q, _ in sites)), 'FileSystem::write_file is called from %s (expected exactly once, from oal_cli::run)' % sites)
+    whole_file_write(c, facts, R)
     for q, d, ln in raw:
         if 'DefaultFileSystem as FileSystem>::write_file' in q:
             c.ok(R, {'raw writer': d, 'in': q})
         else:
             c.bad(R, 'raw-writer:%s:%s' % (q, d), '%s calls %s: the target (or another file) is written outside the single write_file site' % (q, d))
+
+
+def r6_loader_text(c, facts):
+    import c11
+    R = c.rule('C13.R6', 'LOADER-TEXT: every front end compiles exactly the text it loaded (shared with C11.R1)')
+    c11.loader_text(c, facts, R)
+    for fn in facts.fns.values():
+        if (fn.d.get('impl_trait') or '').endswith('module::Loader') and fn.d.get('assoc_name') == 'parse':
+            idx = MF.defs_index(fn)
+            sites = P.call_blocks(fn, 'oal_syntax::parse')
+            if not sites:
+                continue
+            sl = MF.slice_back(fn, sites[0][1]['args'][1]['l'], idx)
+            bad = sorted({P.strip(n).split('::')[-1] for n, _, _ in sl['calls']} - c11.TRANSFORMS_OK)
+            if 3 in sl['args'] and not bad:
+                c.ok(R, {fn.qname: 'parses its input unchanged'})
+            else:
+                c.bad(R, '%s::parse:text-transformed' % fn.d['impl_self'].split('::')[-1].split('<')[0], '%s::parse transforms the text before parsing (%s)' % (fn.d['impl_self'], bad))
+
+
+def whole_file_write(c, facts, R):
+    """DefaultFileSystem::write_file replaces the whole file"""
+    wf = None
+    for fn in facts.fns.values():
+        if 'DefaultFileSystem as FileSystem>::write_file' in fn.qname:
+            wf = fn
+    if wf is None:
+        c.bad(R, 'anchor-missing:DefaultFileSystem::write_file', 'DefaultFileSystem::write_file not found')
+        return
+    names = [P.strip(callee_of(t)['def']) for b, t in wf.calls() if callee_of(t)]
+    if any(n.endswith('std::fs::write') for n in names) or any(n.endswith('fs::File::create') for n in names):
+        c.ok(R, {'write_file': 'truncating API (fs::write / File::create)'})
+        return
+    if any('OpenOptions' in n for n in names):
+        trunc = [(b, t) for b, t in wf.calls() if callee_of(t) and P.strip(callee_of(t)['def']).endswith('OpenOptions::truncate')]
+        if trunc and trunc[0][1]['args'][1].get('val') == '1':
+            c.ok(R, {'write_file': 'OpenOptions with truncate(true)'})
+        else:
+            c.bad(R, 'write_file-does-not-truncate', 'DefaultFileSystem::write_file opens the target without truncating it: a shorter document leaves a stale tail of the previous one while the CLI exits with success')
+        if any(n.endswith('OpenOptions::append') for n in names):
+            c.bad(R, 'write_file-appends', 'DefaultFileSystem::write_file appends to the target')
+    else:
+        c.bad(R, 'write_file-unknown-api', 'DefaultFileSystem::write_file writes with an unrecognised API: %s' % sorted(set(names)))
 
 
 def r2_write_last(c, facts):
@@ -358,3 +402,4 @@ def run(c, facts):
     c.run(r3_exit, facts)
     c.run(r4_err_disc, facts)
     c.run(r5_pipe_agree, facts)
+    c.run(r6_loader_text, facts)
